@@ -254,13 +254,13 @@ def lineNext {α} (v : Variant) (reg : Nat) (f : BFrame) (line : List (Entry α)
     | some _ => ⟨some e, some ⟨f.cc, ii + 1 - k⟩, f.cc, false⟩     -- retry
     | none => ⟨some e, none, f.cc, false⟩                          -- trust
 
-def runLine {α} (v : Variant) (sel : Entry α → Bool) :
+def runLine {α} (v : Variant) (sel : α → Bool) :
     DB α → Option BFrame → List (Interlude α) → List (Entry α) × Bool
   | _, none, _ => ([], false)
   | _, some _, [] => ([], false)
   | db, some f, il :: ils =>
     let db' := db.applyAll il.upds
-    let s := lineNext v il.reg f (db'.chain.filter sel)
+    let s := lineNext v il.reg f (db'.chain.filter (fun e => sel e.cl))
     if s.stuck then ([], true) else
     match s.out with
     | none => ([], false)
@@ -268,11 +268,10 @@ def runLine {α} (v : Variant) (sel : Entry α → Bool) :
       let r := runLine v sel db' s.frame ils
       (e :: r.1, r.2)
 
-/-- a call through the index: `sel` picks the clauses filed under the call's key; it may depend on
-    the clause only (`SelOK`) -/
-def callLine {α} (v : Variant) (sel : Entry α → Bool) (db : DB α) (ils : List (Interlude α)) :
+/-- a call through the index: `sel` picks the clauses filed under the call's key -/
+def callLine {α} (v : Variant) (sel : α → Bool) (db : DB α) (ils : List (Interlude α)) :
     List (Entry α) × Bool :=
-  let s := lineFirst v db.clock (db.chain.filter sel)
+  let s := lineFirst v db.clock (db.chain.filter (fun e => sel e.cl))
   match s.out with
   | none => ([], false)
   | some e =>
